@@ -1,6 +1,7 @@
 package orch
 
 import (
+	"bytes"
 	"encoding/json"
 	"fmt"
 	"os"
@@ -213,7 +214,7 @@ func RunCheck(p Property, opt Options) int {
 				runs := env.Exec(scs, to)
 				for k, sc := range scs {
 					eo := episodeOut{i: j.from + k, sc: sc, run: runs[k]}
-					eo.viols = p.Check(sc, runs[k], env)
+					eo.viols = judge(p, sc, runs[k], env)
 					eo.sig, eo.nontr = p.Classify(sc, runs[k])
 					outs <- eo
 				}
@@ -371,6 +372,20 @@ func RunCheck(p Property, opt Options) int {
 }
 
 // allowedDeath lets a property say that a process death is an expected observation (C12).
+// judge is Property.Check behind one guard that belongs to the simulator, not to any property: the cooperative
+// scheduler sees locks, channel operations, condition variables and wait groups of package slog (rules R5, R7). A
+// task that blocks in anything else while it is the only goroutine allowed to run makes the Go runtime report
+// "all goroutines are asleep" although in a real process the parked tasks would be running. That is a limit of the
+// simulator (exit 2), never a verdict. When every task was accounted for as waiting, the world says so first
+// (ALL-TASKS-WAIT, DEADLOCK) and the oracles judge the dead world as usual.
+func judge(p Property, sc *scen.Scenario, run *Run, env *Env) []Violation {
+	if run != nil && bytes.Contains(run.Stderr, []byte("all goroutines are asleep - deadlock!")) &&
+		!bytes.Contains(run.Stderr, []byte("verif: ALL-TASKS-WAIT")) && !bytes.Contains(run.Stderr, []byte("verif: DEADLOCK")) {
+		return []Violation{{Rule: "HARNESS.blocking", Witness: "unseen-primitive", Detail: "a caller task blocked in a primitive the scheduler does not see while the other tasks were parked by the simulator"}}
+	}
+	return p.Check(sc, run, env)
+}
+
 func allowedDeath(p Property, eo episodeOut) bool {
 	if d, ok := p.(interface {
 		DeathExpected(sc *scen.Scenario, run *Run) bool
@@ -430,7 +445,7 @@ func reproduces(p Property, env *Env, sc *scen.Scenario, rule, witness string) (
 	}
 	sc.World.Isolated = true
 	run := env.Exec1(sc)
-	for _, v := range p.Check(sc, run, env) {
+	for _, v := range judge(p, sc, run, env) {
 		if v.Rule == rule && v.Witness == witness {
 			return &v, run
 		}
@@ -440,7 +455,7 @@ func reproduces(p Property, env *Env, sc *scen.Scenario, rule, witness string) (
 	if sv, ok := p.(interface {
 		SameViolation(rule, w1, w2 string) bool
 	}); ok {
-		for _, v := range p.Check(sc, run, env) {
+		for _, v := range judge(p, sc, run, env) {
 			if v.Rule == rule && sv.SameViolation(rule, witness, v.Witness) {
 				return &v, run
 			}
@@ -532,7 +547,7 @@ func RunReplay(props map[string]Property, path string, opt Options) int {
 			return 1
 		}
 		if t == tries-1 {
-			others := p.Check(rp.Scenario, run, env)
+			others := judge(p, rp.Scenario, run, env)
 			logf("not reproduced: the recorded violation does not occur on this tree (%d other verdicts)", len(others))
 			for _, o := range others {
 				logf("  other: rule=%s witness=%s; %s", o.Rule, o.Witness, o.Detail)
